@@ -8,3 +8,26 @@ package nasType
 //@ func GetBitMask(ub, lb) (bitMask)
 //@   ensures bitMask == ((uint8(1) << (ub - lb)) - 1) << lb
 //@ end
+
+// ---- C14: text getters of the mobile identity and DNN never panic or hang ----
+
+//@ func (a *MobileIdentity5GS) GetSUCI() (s)
+//@   loop 0 invariant 8 <= i && i <= len(a.Buffer) && len(msinBytes) == i - 8
+//@   loop 0 decreases len(a.Buffer) - i
+//@ end
+
+//@ func peiToString(buf) (s)
+//@   requires len(buf) >= 1
+//@   loop 0 invariant -1 <= rangeindex && rangeindex <= len(buf) - 2
+//@   loop 0 invariant len(tmpBytes) == rangeindex + 2
+//@   loop 0 decreases len(buf) - rangeindex
+//@ end
+
+//@ func rfc1035tofqdn(rfc1035RR) (s)
+//@   loop 0 invariant buflen(rfc1035Reader) >= 0
+//@   loop 0 decreases buflen(rfc1035Reader)
+//@ end
+
+//@ func naiToString(buf) (s)
+//@   requires len(buf) >= 1
+//@ end
